@@ -15,7 +15,15 @@ META = {
         'between a delimiter that a reader un-doubles, the writer writes the '
         'still-doubled source text or re-doubles it; (render) exported formula '
         'text re-parses to the same tree (= C01.render/fold); (ids) canonical '
-        'sheet identifiers re-parse (= C04.quote).'),
+        'sheet identifiers re-parse (= C04.quote); (refs) both load paths '
+        'pre-evaluate defined names on the nodes their references added and '
+        'from_dict compiles the cells against that complete table; (source) '
+        'to_dict reads only state that survives __getstate__ (the dispatcher), '
+        'not the cell registry; (memo/cachekey) no memoised helper of the '
+        'export/import path conflates a logical with the equal number, and a '
+        'cache of compiled cells is keyed by everything the compiled function '
+        'depends on (the cell itself included). The writer/reader pairing '
+        'follows helper functions of the same module.'),
     'not_decided': (
         'Value equality after the round trip and the fixed point of repeated '
         'exports for all workbooks.'),
@@ -25,6 +33,31 @@ META = {
 }
 
 EXCEL = 'formulas/excel/__init__.py'
+
+
+def helper_closure(ctx, f, depth=3):
+    """f and the functions of its own module it calls (transitively): an
+    export/import routine may be split into helpers without changing what it
+    writes."""
+    out, work = [f], [(f, 0)]
+    while work:
+        g, d = work.pop()
+        if d >= depth:
+            continue
+        for e in ctx.cg.out(g):
+            if e.is_ext or e.kind != 'call' or e.precision != 'exact':
+                continue
+            h = e.dst
+            if h.module is f.module and h not in out and h.name != '__init__':
+                out.append(h)
+                work.append((h, d + 1))
+    return out
+
+
+def _closure_nodes(ctx, f):
+    for g in helper_closure(ctx, f):
+        for n in own_nodes(g):
+            yield n
 
 
 def rule_tags(ctx):
@@ -37,7 +70,8 @@ def rule_tags(ctx):
     def tags(f):
         marks, types, keys = set(), set(), set()
         typed_vars = set()
-        for n in own_nodes(f):
+        nodes = list(_closure_nodes(ctx, f))
+        for n in nodes:
             if isinstance(n, ast.Constant) and isinstance(n.value, str):
                 if n.value.startswith('#') and n.value[1:].isalpha():
                     marks.add(n.value.upper())
@@ -56,7 +90,7 @@ def rule_tags(ctx):
                 keys.add('type')
                 if isinstance(n.left.value, ast.Name):
                     typed_vars.add(n.left.value.id)
-        for n in own_nodes(f):
+        for n in nodes:
             if isinstance(n, ast.Subscript) and isinstance(
                     n.value, ast.Name) and n.value.id in typed_vars and \
                     isinstance(n.slice, ast.Constant) and isinstance(
@@ -102,10 +136,12 @@ def rule_tags(ctx):
         rr.ok('typed values use the keys %s on both sides' % sorted(wk), EXCEL)
     # the class reconstructed is the class tested when writing
     rr.instances += 1
-    wcls = {norm_src(n.args[1]) for n in own_nodes(td) if isinstance(n, ast.Call)
+    wcls = {norm_src(n.args[1]) for n in _closure_nodes(ctx, td)
+            if isinstance(n, ast.Call)
             and isinstance(n.func, ast.Name) and n.func.id == 'isinstance'
             and len(n.args) == 2 and 'Hex' in norm_src(n.args[1])}
-    rcls = {norm_src(n.func) for n in own_nodes(fd) if isinstance(n, ast.Call)
+    rcls = {norm_src(n.func) for n in _closure_nodes(ctx, fd)
+            if isinstance(n, ast.Call)
             and 'Hex' in norm_src(n.func)}
     if wcls == rcls:
         rr.ok('typed value class agrees: %s' % sorted(wcls), EXCEL)
@@ -364,4 +400,16 @@ def run(ctx):
           _retag(c04_quote(ctx), 'C09', 'C09.ids')]
     from .modelstate import rule_emptied
     rs.append(rule_emptied(ctx, 'C09', 'C09.source', ops=('to_dict',)))
+    from .common import rule_memo, rule_cachekey
+    ck = rule_cachekey(ctx, 'C09', 'C09.cachekey', [EXCEL, 'formulas/cell.py'])
+    ck.floor = 0
+    if not ck.instances:
+        ck.instances = 1
+        ck.ok('import/export keep no hand-written cache of compiled cells',
+              EXCEL, nontrivial=False)
+    rs.append(ck)
+    pr = ctx.project
+    rs.append(rule_memo(ctx, 'C09', 'C09.memo', [], roots=[
+        pr.func(EXCEL, 'ExcelModel.to_dict'),
+        pr.func(EXCEL, 'ExcelModel.from_dict')]))
     return rs
